@@ -21,7 +21,13 @@ def run(ctx, out):
     # every 4th record with a 2-3x finer water level series, outages and mostly an island of readings between two
     # outages (stored data-interval numbers with a hole); own stream, the records are otherwise unchanged
     recs_cl = G.fine_share(recs_cl, C.rng_for(seed, PROP, 'fine'))
-    K.check_cl(recs_cl, out, KEEP, PROP, 'cl')
+    # records whose rises begin with increments EQUAL to one of the ways of rounding threshold x step (they differ by
+    # an ulp for e.g. 6-min steps at 3 mm/h), at the foot of a rise on dry samples after a light shower: the two
+    # places that use the product (interstorm flags, rise detection) must agree; own stream
+    rng_u = C.rng_for(seed, PROP, 'ulp')
+    recs_foot = [G.gen_foot_record(rng_u) for _ in range(40 if tier == 'quick' else 400)]
+    K.count_foot(recs_foot, out)
+    K.check_cl(recs_cl + recs_foot, out, KEEP, PROP, 'cl')
     K.command_probes(out, PROP)
     if tier == 'thorough':
         field_samples(out)
